@@ -380,3 +380,20 @@ def is_fresh_copy_of(node, path_text):
             and isinstance(node.generators[0].target, ast.Name) and node.elt.id == node.generators[0].target.id:
         return True
     return False
+
+
+_MIRROR = {ast.Lt: ast.Gt, ast.Gt: ast.Lt, ast.LtE: ast.GtE, ast.GtE: ast.LtE, ast.Eq: ast.Eq, ast.NotEq: ast.NotEq, ast.Is: ast.Is, ast.IsNot: ast.IsNot}
+
+
+def oriented(cmp, pred):
+    """(subject, operator type, other) of a two-operand comparison, written so that `subject` is the
+    operand for which pred(node) holds (the comparison is mirrored when that is the right operand);
+    None when the node is not such a comparison"""
+    if not (isinstance(cmp, ast.Compare) and len(cmp.ops) == 1):
+        return None
+    a, b, op = cmp.left, cmp.comparators[0], type(cmp.ops[0])
+    if pred(a):
+        return a, op, b
+    if pred(b) and op in _MIRROR:
+        return b, _MIRROR[op], a
+    return None
